@@ -27,7 +27,7 @@ type Case struct {
 	Cores int    `json:"cores"`
 }
 
-var kinds = []string{"one-point-path", "missing-point", "clockwise", "bowtie", "area-missing-path", "area-open-path", "two-point-loop", "open-closed", "shorten"}
+var kinds = []string{"one-point-path", "missing-point", "clockwise", "bowtie", "area-missing-path", "area-open-path", "area-open-llpath", "two-point-loop", "open-closed", "shorten"}
 
 func gen(t *rapid.T) Case {
 	c := Case{
@@ -50,6 +50,17 @@ func isClosed(f wm.FeatureS) bool {
 
 // invalid builds the invalid feature for b, as a new feature (replace=false)
 // or a replacement of an existing one; ok=false when the set has no candidate.
+// llPath returns a valid open path of inline lat/lngs (support for "area-open-llpath").
+func llPath(serial int) wm.FeatureS {
+	base := int32(serial * 40000)
+	pts := []wm.LL{{Lat: 515800000 + base, Lng: -1400000}, {Lat: 515810000 + base, Lng: -1390000}, {Lat: 515820000 + base, Lng: -1400000}, {Lat: 515810000 + base, Lng: -1410000}}
+	f := wm.FeatureS{ID: wm.FID{T: 1, NS: string(b6.NamespaceOSMWay), V: uint64(6000 + serial)}}
+	for i := range pts {
+		f.Path = append(f.Path, wm.PathEl{LL: &pts[i]})
+	}
+	return f
+}
+
 func invalid(b Bad, set []wm.FeatureS, serial int) (spec wm.FeatureS, replace bool, ok bool) {
 	var points, open, closed []wm.FeatureS
 	for _, f := range set {
@@ -103,6 +114,8 @@ func invalid(b Bad, set []wm.FeatureS, serial int) (spec wm.FeatureS, replace bo
 		if len(open) > 0 {
 			return wm.FeatureS{ID: newArea, Polys: []wm.PolyS{{Paths: []wm.FID{pick(open).ID}}}}, false, true
 		}
+	case "area-open-llpath":
+		return wm.FeatureS{ID: newArea, Polys: []wm.PolyS{{Paths: []wm.FID{llPath(serial).ID}}}}, false, true
 	case "two-point-loop":
 		if len(points) > 1 {
 			a, z := points[b.Pick%len(points)], points[(b.Pick+1)%len(points)]
@@ -227,7 +240,7 @@ func check(c Case) vlib.Outcome {
 	if len(c.Set.Features) == 0 || c.Cores < 1 || c.Cores > 16 {
 		return vlib.Outcome{Skip: true}
 	}
-	var newBad, replacements []wm.FeatureS
+	var newBad, replacements, support []wm.FeatureS
 	out := vlib.Outcome{Classes: []string{"world=" + c.World}}
 	for i, b := range c.Bad {
 		spec, replace, ok := invalid(b, c.Set.Features, i)
@@ -235,6 +248,9 @@ func check(c Case) vlib.Outcome {
 			continue
 		}
 		out.Classes = append(out.Classes, "bad="+b.Kind)
+		if b.Kind == "area-open-llpath" {
+			support = append(support, llPath(i)) // a valid open path of lat/lngs; the area over it is the invalid feature
+		}
 		if replace {
 			replacements = append(replacements, spec)
 		} else {
@@ -250,7 +266,7 @@ func check(c Case) vlib.Outcome {
 		// sources: the valid set plus new invalid features; replacements substitute the original
 		all := map[b6.FeatureID]wm.FeatureS{}
 		var order []b6.FeatureID
-		for _, f := range append(append(append([]wm.FeatureS{}, c.Set.Features...), newBad...), replacements...) {
+		for _, f := range append(append(append(append([]wm.FeatureS{}, c.Set.Features...), support...), newBad...), replacements...) {
 			if _, ok := all[f.ID.ID()]; !ok {
 				order = append(order, f.ID.ID())
 			}
@@ -292,6 +308,11 @@ func check(c Case) vlib.Outcome {
 				return vlib.Outcome{Skip: true, Classes: []string{"skipped:set-not-valid"}}
 			}
 			m = ingest.NewMutableOverlayWorld(base)
+		}
+		for _, f := range support {
+			if err := m.AddFeature(wm.ToIngest(f)); err != nil {
+				return vlib.Fail("adding a valid open lat/lng path failed: %v", err)
+			}
 		}
 		for _, f := range append(newBad, replacements...) {
 			if err := m.AddFeature(wm.ToIngest(f)); err == nil {
